@@ -82,6 +82,20 @@ CONFIGS = {
 }
 
 
+_ASAN_FLAGS = "-fsanitize=address,undefined -fno-omit-frame-pointer -fno-sanitize-recover=undefined"
+
+
+def config(cfg):
+    """configuration record; '<name>-asan' derives the clang ASan+UBSan variant of <name>"""
+    if cfg in CONFIGS:
+        return CONFIGS[cfg]
+    if cfg.endswith("-asan") and cfg[:-5] in CONFIGS:
+        base = CONFIGS[cfg[:-5]]
+        return dict(args=base["args"] + ["-DCMAKE_C_COMPILER=clang"],
+                    cflags=(base.get("cflags", "") + " " + _ASAN_FLAGS).strip(), cc="clang")
+    raise InfraError("unknown configuration " + cfg)
+
+
 def _hash_tree():
     h = hashlib.sha256()
     roots = ["src", "include", "cmake", "CMakeLists.txt", "test", "preset"]
@@ -131,7 +145,7 @@ class Lock:
 def build_relic(cfg, extra_args=None, tag=None):
     """Build librelic_s.a of /repo's working tree in configuration cfg.
     Returns the build directory (include/ and lib/librelic_s.a inside)."""
-    c = CONFIGS[cfg]
+    c = config(cfg)
     name = tag or cfg
     h = src_hash()
     bdir = os.path.join(BUILD, "relic", "%s-%s" % (name, h))
@@ -165,7 +179,7 @@ def build_relic(cfg, extra_args=None, tag=None):
 def cc_harness(cfg, name, sources, bdir=None, extra=None, wraps=None, objs_first=None):
     """Compile a harness program against the configuration's static library."""
     bdir = bdir or build_relic(cfg)
-    c = CONFIGS.get(cfg, {})
+    c = config(cfg) if (cfg in CONFIGS or cfg.endswith("-asan")) else {}
     cc = c.get("cc", "gcc")
     exe = os.path.join(bdir, "h_" + name)
     srcs = [s if os.path.isabs(s) else os.path.join(HARNESS, s) for s in sources]
@@ -319,12 +333,20 @@ def write_ndjson(path, events):
 
 
 def read_ndjson(path):
+    """events of a trace file; a line cut short by a crash (followed by the CRASH/TIMEOUT event the
+    signal handler wrote on its own line) is dropped"""
     out = []
-    with open(path) as f:
-        for line in f:
-            line = line.strip()
-            if line:
-                out.append(json.loads(line))
+    with open(path, errors="replace") as f:
+        lines = [ln.strip() for ln in f]
+    lines = [ln for ln in lines if ln]
+    for j, line in enumerate(lines):
+        try:
+            out.append(json.loads(line))
+        except ValueError:
+            nxt = lines[j + 1] if j + 1 < len(lines) else ""
+            if '"op":"CRASH"' in nxt or '"op":"TIMEOUT"' in nxt or j + 1 == len(lines):
+                continue
+            raise
     return out
 
 
@@ -518,7 +540,7 @@ def run_driver(exe, cases, trace, timeout=900, env=None, max_restarts=25, args=N
                     f.seek(-4096, 2)
                 except OSError:
                     f.seek(0)
-                tail = f.read().decode(errors="replace").strip().split("\n")
+                tail = [t for t in f.read().decode(errors="replace").strip().split("\n") if t.strip()]
             try:
                 last = json.loads(tail[-1])
             except Exception:
@@ -563,6 +585,10 @@ def workdir(prop, tier):
 # --------------------------------------------------------------------------
 # one complete code -> spec conformance pass (steps 4-6 of DESIGN.md 2.6)
 # --------------------------------------------------------------------------
+# collect mode (used by C08): Conformance.run only records what it would execute
+COLLECT = None
+
+
 class Conformance:
     """Execute case lines with a driver built for `cfg`, validate the recorded
     events with a trace spec, confirm rejections by re-running the case alone."""
@@ -579,7 +605,13 @@ class Conformance:
     def run(self, label, cfg, driver_name, driver_srcs, cases, spec, shards=NCPU, extra_cc=None,
             wraps=None, env=None, driver_timeout=900, tlc_timeout=900, driver_args=None,
             bdir=None, nontrivial=None, min_per_shard=200, seg_start=None, case_seg_start=None,
-            heap="3g", stateless=True, objs_first=None, event_map=None):
+            heap="3g", stateless=True, objs_first=None, event_map=None, event_filter=None,
+            max_restarts=25):
+        if COLLECT is not None:
+            COLLECT.append(dict(prop=self.prop, label=label, cfg=cfg, driver_name=driver_name,
+                                driver_srcs=driver_srcs, cases=list(cases), extra_cc=extra_cc, wraps=wraps,
+                                driver_args=driver_args, custom_bdir=bdir is not None))
+            return [], TraceVerdict()
         bdir = bdir or build_relic(cfg)
         exe = cc_harness(cfg, driver_name, driver_srcs, bdir=bdir, extra=extra_cc, wraps=wraps,
                          objs_first=objs_first)
@@ -590,9 +622,12 @@ class Conformance:
             f.write("\n".join(cases) + "\n")
         t0 = time.time()
         events = run_driver(exe, cpath, os.path.join(d, "trace.ndjson"), timeout=driver_timeout,
-                            args=driver_args)
+                            args=driver_args, max_restarts=max_restarts)
         if event_map:
             events = [event_map(e) for e in events]
+        all_events = events
+        if event_filter:
+            events = event_filter(events)
         t1 = time.time()
         tenv = dict(env or {})
         tenv["KNOWN"] = self.known_file
@@ -647,7 +682,7 @@ class Conformance:
             else:
                 self.infra.append("rejection of case %r in %s did not repeat" % (line, label))
         self.ev.cov["traces_validated_against_impl"] += v.accepted
-        self.ev.cov["evaluations"] += len(events)
+        self.ev.cov["evaluations"] += len(all_events)
         seen = set()
         nt = 0
         for e in events:
@@ -669,6 +704,8 @@ class Conformance:
 
     def finish(self):
         """Print KNOWN-FINDING / VIOLATION lines, write evidence, return exit code."""
+        if COLLECT is not None:
+            return 0
         kf = {k["key"]: k for k in known_findings(self.prop)}
         for key, n in sorted(self.known_hits.items()):
             what = kf.get(key, {}).get("what", key)
@@ -715,6 +752,8 @@ def run_models(ev, runs, parallel=3):
     specs; a failing model is an infrastructure error (the model is part of
     the machinery: on the unchanged spec it must hold)."""
     from concurrent.futures import ThreadPoolExecutor
+    if COLLECT is not None:
+        return
 
     def one(run):
         mod, cfg, consts, pure = run[:4]
